@@ -540,6 +540,7 @@ async def _stage(ctx, text):
 
     ctx.extra["recv_gen"].update(stats)
     ctx.extra["recv_gen"]["families"] = fams
+    await _wrapper_cases(ctx, r, captured, text)
     if text is not None and cases:
         mism, errs = coqrun.eval_mismatches(IMPORTS, "run_obs", "obs_eqb", cases, os.path.join(ctx.scratch, "recvgen"),
                                             ctype="rcase * (list ev * res unit)", shard=120, jobs=14, preamble=pre, max_bytes=250000)
@@ -705,6 +706,144 @@ async def _stateful_cases(ctx, r, add, fams, stats):
     finally:
         await tn.stop()
     return pre
+
+
+PRE_W = ("Definition wres_eqb (a b : res unit) : bool := match a, b with\n"
+         "  | Ok _, Ok _ => true\n"
+         "  | Raise e, Raise f => Bool.eqb (exn_eqb e DecodingError) (exn_eqb f DecodingError)\n"
+         "  | _, _ => false end.\n"
+         "Definition wobs_eqb (a b : list ev * res unit) : bool := evs_eqb (fst a) (fst b) && wres_eqb (snd a) (snd b).\n")
+
+
+async def _wrapper_cases(ctx, r, captured, text):
+    """the decorators around real handlers: rebuilt around a stub with the payload classes of the real handler, called on a
+    real overlay with real Serializer / signature check (outcomes recorded), compared with the translated wrappers"""
+    import ipv8.lazy_community as lc
+    from ipv8.messaging.anonymization.community import TunnelCommunity, unpack_cell
+    from ipv8.messaging.anonymization.payload import PingPayload
+    from ipv8.peerdiscovery.community import DiscoveryCommunity
+    net = simnet.SimNet()
+    ov = simnet.make_overlay(DiscoveryCommunity, net.endpoint(("10.0.4.1", 1000)))
+    tov = simnet.make_overlay(TunnelCommunity, net.endpoint(("10.0.4.2", 1000)))
+    dummy = lambda *a, **k: None   # noqa: E731
+    refs = {lc.lazy_wrapper()(dummy).__code__: 0, lc.lazy_wrapper_wd()(dummy).__code__: 1, lc.lazy_wrapper_unsigned()(dummy).__code__: 2}
+    makers = {0: lc.lazy_wrapper, 1: lc.lazy_wrapper_wd, 2: lc.lazy_wrapper_unsigned}
+    state = {}
+
+    def stub(*a, **k):
+        state["entered"] = True
+        if state["raise"]:
+            raise ValueError("decorated function fails")
+
+    def instrument(o):
+        ser = o.serializer
+        o1, o2, o3 = ser.unpack_serializable, ser.unpack_serializable_list, o._verify_signature
+
+        def us(cls, data, offset=0, _o=o1):
+            # (unpack_serializable_list calls this per class: only the wrapper's own calls are steps)
+            key = "header" if cls.__name__ == "BinMemberAuthenticationPayload" else "list" if state.get("cell") else None
+            try:
+                res = _o(cls, data, offset=offset)
+            except Exception:
+                if key:
+                    state.setdefault(key, "raised")
+                raise
+            if key:
+                state.setdefault(key, "ok")
+            return res
+
+        def ul(classes, data, offset=0, _o=o2, **kw):
+            try:
+                res = _o(classes, data, offset=offset, **kw)
+            except Exception:
+                state["list"] = "raised"
+                raise
+            state["list"] = "ok"
+            return res
+
+        def vs(auth, data, _o=o3):
+            try:
+                res = _o(auth, data)
+            except Exception:
+                state.setdefault("verify", "raised")
+                raise
+            state.setdefault("verify", (bool(res[0]), bytes(res[1])))
+            return res
+        ser.unpack_serializable, ser.unpack_serializable_list, o._verify_signature = us, ul, vs
+    instrument(ov)
+    instrument(tov)
+    targets = []     # (which, wrapper, overlay, datagram)
+    prefix = ov.get_prefix()
+    for d in captured:
+        if d[:22] != prefix or len(d) < 23 or ov.decode_map[d[22]] is None:
+            continue
+        f = getattr(ov.decode_map[d[22]], "__func__", None)
+        if f is None or f.__code__ not in refs:
+            continue
+        which = refs[f.__code__]
+        payloads = dict(zip(f.__code__.co_freevars, [c.cell_contents for c in f.__closure__]))["payloads"]
+        targets.append((which, makers[which](*payloads)(stub), ov, d))
+        if which == 0 and len([t for t in targets if t[0] == 1]) < 3:
+            targets.append((1, lc.lazy_wrapper_wd(*payloads)(stub), ov, d))
+    from ipv8.messaging.payload_headers import GlobalTimeDistributionPayload
+    for gt in (1, 2 ** 40):
+        targets.append((2, lc.lazy_wrapper_unsigned(GlobalTimeDistributionPayload)(stub), ov,
+                        prefix + b"\x05" + ov.serializer.pack_serializable(GlobalTimeDistributionPayload(gt))))
+    ping = tov.get_prefix() + b"\x01" + tov.serializer.pack_serializable(PingPayload(7, 9))[4:]
+    targets.append((3, unpack_cell(PingPayload)(stub), tov, tov.get_prefix() + b"\x12" + tov.serializer.pack_serializable(PingPayload(7, 9))))
+    cases, metas, kinds = [], [], {}
+    for which, w, o, d in targets:
+        variants = [d] + [d[:n] for n in sorted(set([0, 22, 23, 24] + [r.randrange(len(d)) for _ in range(10 if ctx.quick else 60)]))]
+        for _ in range(10 if ctx.quick else 80):
+            q = bytearray(d)
+            q[r.randrange(23, len(q))] ^= 1 << r.randrange(8)
+            variants.append(bytes(q))
+        for data in variants:
+            state.clear()
+            state["raise"] = r.random() < 0.3
+            state["entered"] = False
+            state["cell"] = which == 3
+            try:
+                if which == 3:
+                    w(o, SRC, data, 7)
+                else:
+                    w(o, SRC, data)
+                res = "Ok tt"
+            except Exception as e:   # noqa: the observation
+                res = "Raise DecodingError" if type(e).__name__ == "PacketDecodingError" else "Raise ValueError"
+            kinds[which] = kinds.get(which, 0) + 1
+            ctx.count(("wrap", which, data, state["raise"]), nontrivial=len(data) > 23)
+            meta = {"kind": "recv-gen-wrapper", "which": which, "data": data.hex(), "steps": {k: (v if isinstance(v, str) else [v[0], v[1].hex()])
+                                                                                       for k, v in state.items() if k in ("header", "verify", "list")}}
+            ver = state.get("verify")
+            if state["entered"] and which in (0, 1) and not (isinstance(ver, tuple) and ver[0]):
+                ctx.violation("recv-gen/wrapper-entered-unverified", "a signed handler's function was entered without a valid signature", meta)
+            if state["entered"] and (state.get("list") != "ok"):
+                ctx.violation("recv-gen/wrapper-entered-undecoded", "a decorated function was entered although the payload did not decode", meta)
+
+            def opt(k, ok):
+                v = state.get(k)
+                return "None" if v is None else "(Some None)" if v == "raised" else "(Some (Some %s))" % ok(v)
+            c = "(mkWCase %d %s %s %s %s %s)" % (
+                which, opt("header", lambda v: "5"), opt("verify", lambda v: "(%s, %s)" % ("true" if v[0] else "false", zl(v[1]))),
+                opt("list", lambda v: "9"), "true" if state["raise"] else "false", zl(data))
+            cases.append((c, "([%s], %s)" % ("EvUser 0 9" if state["entered"] else "", res)))
+            metas.append(meta)
+    ctx.extra["recv_gen"]["wrapper_calls"] = kinds
+    if text is not None and cases:
+        mism, errs = coqrun.eval_mismatches(IMPORTS, "run_wcase", "wobs_eqb", cases, os.path.join(ctx.scratch, "recvgenw"),
+                                            ctype="wcase * (list ev * res unit)", shard=150, jobs=8, preamble=PRE_W)
+        for e in errs:
+            ctx.broke("model evaluation failed (handler decorators)", e)
+        for i in mism[:6]:
+            ctx.broke("correspondence: a translated handler decorator and the implementation differ",
+                      json.dumps(metas[i])[:700] + " impl=" + cases[i][1])
+        ctx.coverage["traces_validated_against_impl"] += len(cases) - len(mism)
+    for o in (ov, tov):
+        try:
+            await o.unload()
+        except Exception:   # noqa
+            pass
 
 
 def replay_case(c):
